@@ -223,9 +223,61 @@ fn check_chain(n: usize, fs: &[TT]) -> Verdict {
     }
 }
 
+/// `d.clone_from(&s)`: d an existing Esop over m variables (cubes b), s over n variables (cubes a).
+fn check_clone_from(n: usize, m: usize, a: &Key, b: &Key) -> Verdict {
+    let fa = denote(n, a);
+    match guarded(|| {
+        let s = esop_of(n, a);
+        let mut d = esop_of(m, b);
+        d.clone_from(&s);
+        check_esop("after clone_from", n, &d, &fa)?;
+        if d != s {
+            return fail("after clone_from: equal to the source", format!("{} vs {}", d, s));
+        }
+        check_esop("!d after clone_from", n, &!&d, &fa.not())?;
+        check_esop("d ^ s after clone_from", n, &(&d ^ &s), &TT::zero(n))?;
+        Ok(())
+    }) {
+        Ok(v) => v,
+        Err(p) => fail("clone_from and the operations after it return", p),
+    }
+}
+
+fn mask_key(k: &Key, n: usize) -> Key {
+    let full = if n >= 32 { !0u32 } else { (1u32 << n) - 1 };
+    k.iter().map(|(p, q)| (p & full, q & full)).filter(|(p, q)| p & q == 0).collect()
+}
+
+/// Tours: conversions (cube-level comparison) and operators at every ordered pair of sizes.
+pub fn tour(which: &str, k: usize, thorough: bool) -> Result<super::xsize::Tour, String> {
+    if which != "sizes" {
+        return Err("no such tour".into());
+    }
+    let sizes: Vec<usize> = (0..=if thorough { 11 } else { 10 }).collect();
+    let a0 = *sizes.get(k).ok_or("no such tour")?;
+    let mut t = super::xsize::Tour::new(format!("sizes:{}", k));
+    let ka: Key = vec![(0b1, 0), (0b110, 0), (0b1, 0), (0b100100000, 0), (0b11, 0b100)];
+    let kb: Key = vec![(0b1, 0), (0, 0), (0b1000000000, 0b10)];
+    for s in super::xsize::size_pairs_from(a0, &sizes) {
+        let pats = crate::model::alpha::word_patterns(s, 0, 0);
+        for tab in [pats[pats.len() - 1].clone(), TT::from_fn(s, |m| crate::model::alpha::popcount(m) >= 2 && m % 5 != 0)] {
+            t.push(format!("Esop::from(&lut) n={}", s), move || check_from_lut(&tab));
+        }
+        let (a, b) = (mask_key(&ka, s), mask_key(&kb, s));
+        t.push(format!("^ and ! n={}", s), move || check_ops(s, &a, &b));
+        let pos: Key = mask_key(&ka, s).into_iter().map(|(p, _)| (p, 0)).collect();
+        t.push(format!("Lut::from(all-positive esop with a repeated cube) n={}", s), move || check_to_lut(s, &pos));
+    }
+    Ok(t)
+}
+
 pub fn replay(case: &Case) -> Result<Verdict, String> {
+    if case.get("kind")? == "tour" {
+        return super::xsize::replay(case, &tour);
+    }
     let n = case.usize("n")?;
     Ok(match case.get("kind")? {
+        "clonefrom" => check_clone_from(n, case.usize("m")?, &parse_key(case.get("a")?)?, &parse_key(case.get("b")?)?),
         "fromlut" => check_from_lut(&TT::from_words(n, &case.words("t")?).ok_or("t malformed")?),
         "ops" => check_ops(n, &parse_key(case.get("a")?)?, &parse_key(case.get("b")?)?),
         "consts" => check_consts(n),
@@ -392,4 +444,21 @@ pub fn run(run: &Run) {
             }
         }
     });
+    run.section_seq("CLONE_FROM Esop: every ordered pair of sizes 0..=8 x cube lists", false, "destination over m variables (3 cube lists) overwritten from a source over n variables (4 cube lists): size, cubes, table, then !, ^", |l| {
+        let srcs: Vec<Key> = vec![vec![], vec![(0, 0)], vec![(0b1, 0b10), (0b100, 0), (0b1, 0b10)], vec![(0b11, 0), (0b10000000, 0b101), (0b10000, 0b1)]];
+        let dsts: Vec<Key> = vec![vec![], vec![(0, 0)], vec![(0b1, 0), (0b10, 0b1), (0, 0b100)]];
+        for n in 0..=8usize {
+            for m in 0..=8usize {
+                for a in &srcs {
+                    for b in &dsts {
+                        let (a2, b2) = (mask_key(a, n), mask_key(b, m));
+                        l.states += 1;
+                        rec(l, check_clone_from(n, m, &a2, &b2), format!("clonefrom|{}|{}|{}|{}", n, m, show_key(&a2), show_key(&b2)), "clone_from", format!("kind=clonefrom;n={};m={};a={};b={}", n, m, show_key(&a2), show_key(&b2)), n != m, (n * 100 + m) as u64);
+                    }
+                }
+            }
+        }
+    });
+    let th = run.thorough();
+    super::xsize::run_tours(run, "C15", "sizes (Esop::from(&lut) compared cube by cube, ^, !, Lut::from at every ordered pair of sizes consecutively)", "sizes 0..=10 (thorough 11); results must not depend on what was converted before on the thread", if th { 12 } else { 11 }, &|k| tour("sizes", k, th).unwrap());
 }
